@@ -325,7 +325,8 @@ class BaseCommand(FlockMixin, ABC):
         exit_code = 0
         try:
             exit_code = await self.run()
-        except KeyboardInterrupt:
+        # Under asyncio.run() Ctrl-C cancels this task; the KeyboardInterrupt is only raised once the task is done
+        except (KeyboardInterrupt, asyncio.CancelledError):
             exit_code = 128 + signal.SIGINT
         # Ensure that META.json gets written in the case a
         # command calls sys.exit().
